@@ -702,9 +702,17 @@ contract(
     may_raise={"RuntimeError": None},       # +inf likelihood
     loops={0: {"inv": [
         "0 <= n and n <= target", "len(live_points) == target",
-        "forall(i, 0, n, InUnit(live_points[i]['x']))"]}},
+        "forall(i, 0, n, InUnit(live_points[i]['x']))",
+        # only points where the prior does not vanish are kept (C09)
+        "forall(i, 0, n, isfinite(live_points[i]['logP']))"]}},
     hints=[("at_end", None, f"lemma_mixrow_single({PW})"),
-           ("at_end", None, f"lemma_sum_single({CSUM})")],
+           ("at_end", None, f"lemma_sum_single({CSUM})"),
+           # C09: the likelihood is called on the initial points only where
+           # the prior is finite (program-point clause)
+           ("assert_before_stmt",
+            "live_points['logL'] = self.model.batch_evaluate_log_likelihood",
+            "forall(i, 0, len(live_points), "
+            "isfinite(live_points[i]['logP']))")],
     ensures=_rep("training_samples") + [
         "len(self.training_samples.samples) == self.n_initial",
         f"len({CNT}) == 1 and {CNT}[-1] == self.n_initial",
